@@ -129,6 +129,15 @@ def run(ctx: Ctx, tier: str) -> Result:
             res.ok("C15.ONCE", {"matched against the current event's": list(want)})
         conds = [(norm(c), pol) for c, pol in paths.conditions(p, callsite[0], worker)]
         evs = [c for c, pol in conds if pol and "'line'" in c and "'return'" in c and "'exception'" in c]
+        if not evs:
+            # the events may be named by a constant: `event in CALLBACK_EVENTS`
+            from .common import fold_strings
+            for c_, pol_ in paths.conditions(p, callsite[0], worker):
+                for n_ in ast.walk(c_):
+                    if pol_ and isinstance(n_, ast.Compare) and len(n_.ops) == 1 and isinstance(n_.ops[0], ast.In) and norm(n_.left) == roles["event"]:
+                        fs_ = fold_strings(ctx, n_.comparators[0], worker)
+                        if fs_ is not None and {"line", "return", "exception"} <= fs_:
+                            evs.append(norm(n_))
         if evs and any("is_set" in c for c, pol in conds if pol):
             res.ok("C15.ONCE", {"pending work looked at on": "line/return/exception events when something is pending"})
         else:
@@ -309,8 +318,15 @@ def run(ctx: Ctx, tier: str) -> Result:
     dc = p.func("deep.processor.context.snapshot_action.DeferredSnapshotActionCallback.process")
     caps = [c for c in t.calls_in(dc) if any(x.name == "process_capture_variable" for x in t.resolve_call(c, dc).repo)]
     pushes = [c for c in t.calls_in(dc) if any(x.name == "push_snapshot" for x in t.resolve_call(c, dc).repo)]
+    from .common import fold_strings
+
+    def _ends(c_):
+        if "'return'" in norm(c_) and "'exception'" in norm(c_):
+            return True
+        return any(isinstance(n_, ast.Compare) and len(n_.ops) == 1 and isinstance(n_.ops[0], ast.In) and
+                   (fold_strings(ctx, n_.comparators[0], dc) or set()) >= {"return", "exception"} for n_ in ast.walk(c_))
     okc = len(caps) == 1 and [norm(a) for a in caps[0].args] == [dc.params[2], dc.params[4]] and \
-        any(pol and "'return'" in norm(c) and "'exception'" in norm(c) for c, pol in paths.conditions(p, caps[0], dc))
+        any(pol and _ends(c) for c, pol in paths.conditions(p, caps[0], dc))
     if okc:
         res.ok("C15.RESULT", {"captured": "(event, arg) of the completing event"})
     else:
